@@ -33,6 +33,17 @@ def run(P, R):
                 'processes running somewhere', 9)
     rule_next_when_empty(P, R, r2)
     plan_before_trigger(P, G, R, r2, 'Stopper.stop_applications', 'self.store_application')
+    shared.running_definitions(P, R, r2)
+    # every application with something running is planned: the plan loop of stop_applications filters on
+    # has_running_processes() only
+    sa_ = P.unit('Stopper.stop_applications')
+    fms = factmap(sa_)
+    sc_ = [c for c in own_nodes(sa_.node) if isinstance(c, ast.Call) and call_text(c) == 'self.store_application']
+    ok = len(sc_) == 1 and {(t, pol) for t, pol in fms.closed(sc_[0])} == {
+        ('each(self.supvisors.context.applications.values()).has_running_processes()', True)}
+    R.check(r2, ok, 'every application with a running process enters the stop plan', 'plan|scope', sa_.loc(),
+            'Stopper.stop_applications plans an application under %s (needs exactly: has_running_processes())' %
+            [sorted(fms.closed(c)) for c in sc_])
     u = P.unit('Stopper.store_application')
     loops = [n for n in u.node.body if isinstance(n, ast.For)]
     # name-independent (closed forms, sa.defuse): plan[<key of the stop_sequence item>] = ... inside the loop, and the
